@@ -207,47 +207,43 @@ impl PqFold for SortingInference<'_> {
 
                     // if new columns are added, the relation instance needs to be updated
                     if !new_columns.is_empty() {
-                        let mut cid_redirects_to_add = Vec::new();
-                        for old_cid in new_columns {
-                            let new_cid = self.ctx.anchor.cid.gen();
-                            let name = self.ctx.anchor.ensure_column_name(*old_cid).cloned();
-                            if let Some(name) = name.clone() {
-                                self.ctx.anchor.column_names.insert(new_cid, name);
-                            }
+                        // A CTE can be referenced more than once: every instance needs the
+                        // redirects. Instances are visited in id order, so that the new column
+                        // ids do not depend on hash-map iteration order.
+                        let riids = (self.ctx.anchor.relation_instances.iter())
+                            .filter(|(_riid, rel_inst)| rel_inst.table_ref.source == cte.tid)
+                            .map(|(riid, _rel_inst)| *riid)
+                            .sorted()
+                            .collect_vec();
 
-                            let old_def = self.ctx.anchor.column_decls.get(old_cid).unwrap();
-                            let col = match old_def {
-                                ColumnDecl::RelationColumn(_, _, RelationColumn::Wildcard) => {
-                                    RelationColumn::Wildcard
+                        for riid in riids {
+                            for old_cid in &new_columns {
+                                let new_cid = self.ctx.anchor.cid.gen();
+                                let name = self.ctx.anchor.ensure_column_name(**old_cid).cloned();
+                                if let Some(name) = name.clone() {
+                                    self.ctx.anchor.column_names.insert(new_cid, name);
                                 }
-                                _ => RelationColumn::Single(name),
-                            };
 
-                            cid_redirects_to_add.push((*old_cid, new_cid, col));
-                        }
+                                let old_def = self.ctx.anchor.column_decls.get(*old_cid).unwrap();
+                                let col = match old_def {
+                                    ColumnDecl::RelationColumn(_, _, RelationColumn::Wildcard) => {
+                                        RelationColumn::Wildcard
+                                    }
+                                    _ => RelationColumn::Single(name),
+                                };
 
-                        let (riid, relation_instance) = self
-                            .ctx
-                            .anchor
-                            .relation_instances
-                            .iter_mut()
-                            .find(|(_riid, rel_inst)| rel_inst.table_ref.source == cte.tid)
-                            .unwrap();
-
-                        cid_redirects_to_add
-                            .into_iter()
-                            .for_each(|(old_cid, new_cid, col)| {
-                                let def = ColumnDecl::RelationColumn(*riid, new_cid, col);
-
+                                let def = ColumnDecl::RelationColumn(riid, new_cid, col);
                                 self.ctx.anchor.column_decls.insert(new_cid, def);
                                 log::debug!(
                                     "-- redirecting {old_cid:?} to {new_cid:?} for CTE {cte:?} (RIId: {riid:?})",
                                     cte = cte.tid,
-                                    riid = riid
                                 );
 
-                                relation_instance.cid_redirects.insert(old_cid, new_cid);
-                            });
+                                let relation_instance =
+                                    self.ctx.anchor.relation_instances.get_mut(&riid).unwrap();
+                                relation_instance.cid_redirects.insert(**old_cid, new_cid);
+                            }
+                        }
                     }
                 }
                 _ => {}
